@@ -22,7 +22,12 @@ func init() {
 		Assumptions: []string{"logging (logrus) and go-metrics updates do not block", "a rendezvous send to a select loop that has no blocking operation in its bodies completes as soon as the loop comes round"},
 		Rules: []RuleDef{
 			{ID: "C06.R1", Min: 8, Doc: "relay loop never blocks: may-block analysis of the pre-select part and of every select case body of (*Destination).relay, through all synchronously called module functions", Run: c06r1},
-			{ID: "C06.R2", Min: 3, Doc: "route hand-off: may-block analysis of SendAllMatch/SendFirstMatch/ConsistentHashing.Dispatch with the send on Destination.In accepted", Run: c06r2},
+			{ID: "C06.R2", Min: 3, Doc: "route hand-off: may-block analysis of SendAllMatch/SendFirstMatch/ConsistentHashing.Dispatch with the send on Destination.In accepted; that send completes only while the destination's loop runs, so a destination is shut down only after the route snapshot listing it has been replaced (rule C18.R5(a) for Destination.Shutdown)", Run: func(c *Check) {
+				c06r2(c)
+				if storeBeforeShutdown(c, "destination.Destination") == 0 {
+					anchorFail("no Destination.Shutdown next to a snapshot Store found")
+				}
+			}},
 			{ID: "C06.R3", Min: 1, Doc: "dialling is never inline: net.Dial* is unreachable from relay over call/defer edges", Run: c06r3},
 			{ID: "C06.R5", Min: 1, Doc: "fresh liveness: on every path from the relay loop's header to its select on which a connection is held (conn != nil), conn.isAlive() was evaluated in that iteration — the conn != nil decision of the `<-dest.In` case (write vs. count as conn-down drop) is never made on a connection that died before the iteration", Run: c06r5},
 			{ID: "C06.R6", Min: 3, Doc: "no silent loss on a healthy connection: what Conn.Write hands to the buffered writer is the complete line and its newline (or the complete pickle frame), and the buffered writer copies only into free space of its buffer — bytes that vanish there are lost without any counter moving (rules C05.R3 and C05.R5 evaluated for this property as well)", Run: func(c *Check) { c05r3(c); c05r5(c) }},
@@ -576,6 +581,9 @@ func c06r4(c *Check) {
 			if f, ok := counterField(in); ok && f == "numOut" {
 				return []string{"inc:numOut"}
 			}
+			if isCallNamed(in, "(*"+modPath+"/destination.Conn).close") {
+				return []string{"close"}
+			}
 			return nil
 		},
 		Branch: func(ifi *ssa.If, cond ssa.Value, taken bool) []string {
@@ -605,4 +613,47 @@ func c06r4(c *Check) {
 		}
 	}
 	c.Judge(bad == "" && len(paths) >= 2, "destination.Conn.HandleData counts a line as sent iff Write succeeded", c.P.InstrPos(body.Instrs[0]), fmt.Sprintf("%d paths", len(paths)), bad)
+	// HandleData treats every error of Write as a broken connection (closes it, which discards what is
+	// buffered): Write may report an error only after it attempted I/O on the connection
+	closesOnErr := false
+	for i := range paths {
+		if paths[i].Has("write:failed") && paths[i].Has("close") {
+			closesOnErr = true
+		}
+	}
+	wr := c.P.Func("destination", "*Conn", "Write")
+	wcfg := &PathCfg{
+		Inline: inlineSameRecv(wr),
+		Classify: func(in ssa.Instruction) []string {
+			if cc := callCommon(in); cc != nil {
+				n := calleeName(cc)
+				if strings.HasSuffix(n, "destination.Writer).Write") || strings.HasSuffix(n, "destination.Writer).Flush") || n == "(io.Writer).Write" || n == "(net.Conn).Write" {
+					return []string{"io"}
+				}
+			}
+			return nil
+		},
+	}
+	wpaths, wtrunc := EnumPaths(wr, nil, wcfg)
+	bad = ""
+	nErr := 0
+	for i := range wpaths {
+		pa := &wpaths[i]
+		if pa.End != "return" || len(pa.Ret) == 0 {
+			continue
+		}
+		last := pa.Ret[len(pa.Ret)-1]
+		if last != nil && isNilConst(last) {
+			continue
+		}
+		nErr++
+		if !pa.Has("io") {
+			bad = "Conn.Write can return an error without having written to the connection (" + pa.String() + "): HandleData takes every error from Write for a dead connection and closes it, discarding the lines buffered for a healthy endpoint without counting them"
+		}
+	}
+	if !closesOnErr {
+		c.Hold("destination.Conn.Write errors mean I/O errors", c.AtFn(wr), "HandleData does not close the connection on a Write error: nothing to decide")
+	} else {
+		c.Judge(bad == "" && !wtrunc && nErr > 0, "destination.Conn.Write errors mean I/O errors", c.AtFn(wr), fmt.Sprintf("%d paths, %d may return an error, all after a write to the buffered writer", len(wpaths), nErr), bad)
+	}
 }
